@@ -69,10 +69,13 @@ impl<S: Read + Write> Stream<S> {
     /// }
     /// ```
     pub fn write(&mut self, buffer: &[u8]) -> RdpResult<usize> {
-        Ok(match self {
-            Stream::Raw(e) => e.write(buffer)?,
-            Stream::Ssl(e) => e.write(buffer)?
-        })
+        // a stream is allowed to accept only a part of the buffer
+        // write_all keep going until everything is sent or an error occurred
+        match self {
+            Stream::Raw(e) => e.write_all(buffer)?,
+            Stream::Ssl(e) => e.write_all(buffer)?
+        };
+        Ok(buffer.len())
     }
 
     /// Shutdown the stream
